@@ -58,7 +58,10 @@ def eval_case(case):
                 if len(deltas) > 1:
                     out.append(O.V("(b) logs changed by different numbers of entries", "C18/delta/" + name, sorted(deltas)))
             if name == "insert_absence" and prev is not None and not O.c08_lengths(prev):
-                L = [t for t in rec["op"]["list"] if t not in prev["abs"]]
+                L = []
+                for t in rec["op"]["list"]:        # a list denotes a set of steps
+                    if t not in prev["abs"] and t not in L:
+                        L.append(t)
                 pos, newlen = final_positions(L, prev["time"])
                 if d["time"] == newlen and not O.c08_lengths(d):
                     for p in pos:
